@@ -79,6 +79,15 @@ def r1_r4_expansion(prog, rep: Report, f: Func):
         if isinstance(n, ast.Assign) and isinstance(n.value, ast.ListComp) and isinstance(n.targets[0], ast.Name):
             q, seed = n.targets[0].id, n.value
     if q is None:
+        # the seed loop written out:  queue = []; for i, e in enumerate(elements): [single = (e,);] queue.append(<entry>)
+        from ..util import comprehension_of
+        for n in f.node.body:
+            if isinstance(n, ast.Assign) and isinstance(n.value, ast.List) and not n.value.elts and isinstance(n.targets[0], ast.Name):
+                built = comprehension_of(f.node, n.targets[0].id)
+                if built is not None and len(built.generators) == 1 and not built.generators[0].ifs:
+                    q, seed = n.targets[0].id, built
+                    break
+    if q is None:
         rep.unrec("C17.R1", f, "seeds", "queue seed comprehension not found")
         return
     g0 = seed.generators[0]
@@ -251,6 +260,12 @@ def r1_r4_expansion(prog, rep: Report, f: Func):
                 continue                             # asking whether the queue is empty does not touch it
             other.append(src(n))
         if isinstance(n, ast.Call) and isinstance(n.func, ast.Attribute) and isinstance(n.func.value, ast.Name) and n.func.value.id == q:
+            # the seed loop written out appends to the (still plain) list before heapify() turns it into the heap
+            heapified = [h for h in walk_own(f.node) if isinstance(h, ast.Call) and _heap_fn(prog, f, h) == "heapq.heapify"
+                         and h.args and src(h.args[0]) == q]
+            if n.func.attr == "append" and len(heapified) == 1 and n.lineno < heapified[0].lineno \
+                    and not any(isinstance(a_, (ast.While,)) and any(x is n for x in ast.walk(a_)) for a_ in walk_own(f.node)):
+                continue
             other.append(src(n))
         if isinstance(n, (ast.Subscript,)) and isinstance(n.value, ast.Name) and n.value.id == q:
             other.append(src(n))
